@@ -467,6 +467,12 @@ class SymEngine:
                     return C(a & b)
             except Exception:
                 pass
+        if sym in ("+", "*", "&", "|", "^") and (_intlike(l) or _intlike(r)) and not (l[0] in ("tuple", "list") or r[0] in ("tuple", "list")):
+            # integer arithmetic is commutative: canonical operand order (constants last)
+            if is_c(l) and not is_c(r):
+                l, r = r, l
+            elif not is_c(l) and not is_c(r) and tstr(l) > tstr(r):
+                l, r = r, l
         if sym == "+":
             if l[0] in ("tuple", "list") and r[0] == l[0]:
                 return (l[0], l[1] + r[1])
@@ -1122,6 +1128,20 @@ class SymEngine:
             return cases
         finally:
             self._in_progress.discard(key)
+
+
+def _intlike(t):
+    if is_c(t):
+        return isinstance(t[1], int) and not isinstance(t[1], bool)
+    if t[0] == "len":
+        return True
+    if t[0] == "bin" and t[1] in ("-", "%", "&", "|", "^", "<<", ">>", "//", "**"):
+        return True
+    if t[0] == "bin" and t[1] in ("+", "*"):
+        return _intlike(t[2]) or _intlike(t[3])
+    if t[0] == "call" and t[1] in ("ext:eth_utils.to_int", "ext:len", "ext:min", "ext:max", "ext:int", "trie.utils.nodes:get_common_prefix_length"):
+        return True
+    return False
 
 
 def _lin(t):
